@@ -135,9 +135,12 @@ pub fn algos(tier: Tier) -> Vec<Algo> {
         Algo::Dijkstra,
         Algo::AStar(Some(1.0)),
         Algo::SingleVia { k: 3, under: Box::new(Algo::Dijkstra), sim: Some(Sim::EdgeCos(0.99)), term: None },
+        // an inadmissible estimate: vertices are reached again over cheaper ways after they were expanded (fix 149ab43 was
+        // found under factor 10 in the thorough tier only)
+        Algo::AStar(Some(10.0)),
     ];
     if tier == Tier::Thorough {
-        v.push(Algo::AStar(Some(10.0)));
+        v.push(Algo::AStar(Some(3.0)));
         v.push(Algo::SingleVia { k: 4, under: Box::new(Algo::AStar(Some(1.0))), sim: Some(Sim::DistCos(0.95)), term: Some(KTerm::Factor(2)) });
     }
     v
@@ -215,7 +218,33 @@ pub fn run(tier: Tier) -> i32 {
         }
     });
     st.merge(st2);
+    // the same under a time objective: a slow direct edge against a fast detour makes the direct way the expensive one
+    // although it is the short one (the shape of the defect repaired by 149ab43); every rotation of three speeds
+    let tspecs = vec![GenSpec { n: 4, max_edges: 5, max_mult: 1, n_len: 3, self_loops: false, mode: LenMode::Metric }];
+    let st3 = par_enumerate(&tspecs, |_spec, net, st| {
+        if net.m() == 0 {
+            return;
+        }
+        st.states += 1;
+        for rot in 0..3usize {
+            // speeds, headings and turn delays in base units: with turn delays the cost of an edge depends on the edge before it
+            let mut w = crate::props::c01::speed_turn_world(net);
+            if let Trav::Speed { speeds, .. } = &mut w.trav {
+                *speeds = (0..net.m()).map(|e| [10.0, 30.0, 60.0][(e + rot) % 3]).collect();
+            }
+            // delays of the order of the edge times (minutes, not seconds), so that the turn taken decides which way is cheaper
+            if let Some(t) = &mut w.turn {
+                t.unit = TimeUnit::Minutes;
+            }
+            for algo in [Algo::AStar(Some(3.0)), Algo::AStar(Some(10.0))].iter() {
+                check_case(&w, algo, &Orient::Vertex { o: 0, d: Some(net.n - 1) }, false, st);
+                check_case(&w, algo, &Orient::Vertex { o: 0, d: Some(net.n - 1) }, true, st);
+            }
+        }
+    });
+    st.merge(st3);
     let mut desc: Vec<String> = specs.iter().map(|s| s.describe()).collect();
+    desc.extend(tspecs.iter().map(|s| format!("{} under a time objective with turn delays (three speed rotations), A* weight factors 3/10", s.describe())));
     desc.extend(rspecs.iter().map(|s| format!("{} under A* weight factors 1.5/2/3/5/10", s.describe())));
     finish(
         &info,
